@@ -398,7 +398,7 @@ class C27(Spec):
     def gen(self, tier, rng):
         cases = sweep_cases() + temp_sweep_cases()
         g = Gen(rng)
-        n = 1200 if tier == "quick" else 20000
+        n = 1000 if tier == "quick" else 20000
         for _ in range(n):
             cases.append(g.case())
         return cases
